@@ -7,4 +7,5 @@ pub mod sign;
 pub mod embed_common;
 pub mod embed_lex2;
 pub mod embed_lex3;
+pub mod embed_heif;
 pub mod embed_oracle;
